@@ -2,6 +2,7 @@ package main
 
 import (
 	"fmt"
+	"go/constant"
 	"go/token"
 	"go/types"
 	"sort"
@@ -17,7 +18,7 @@ func checkC08(r *Report) {
 	e := runEffect(p)
 	pathTrusted(r)
 	effectTrusted(r)
-	r.Explain = "Only the clauses of C08 that are visible in the shape of the code are decided; consistency of the backtracking search over all universes is not. C08.a SNAPSHOT-ISOLATED: a new search state is built from Clone/Copy of the previous one (resolution.pushNewState), versionMap.Clone re-makes both its map and its stack and fills them, and criterion.copy re-makes the two maps that are later updated in place, so backtracking to an earlier state finds it unchanged. C08.b VERSIONMAP: the pin table's map and insertion stack are written only by its own Set/Pop/Clone, and Set/Pop update both on every path, so there is one pinned version per package. C08.c GRAPH-SHAPE (buildGraph): a node is added only for a pin that has a route to the root and only when the package has no node yet, the id is recorded in the package-keyed table in the same step (one node per package, every node reachable), and every recorded requirement of a selected package ends in AddEdge, an error return, or the one documented skip (the parent has no node). C08.d ROOT-FIXED: for a requirement on the root's package provider.matchingVersions returns nothing but the root version. C08.f CRIT-MAP-FROZEN: a criterion stored in a search state is shared with the older states kept for backtracking (criteria.Copy is shallow), so its extras/incompatibilities maps are never updated in place: every map update, and every call whose callee (by its effect summary) writes the map it is given, acts on a fresh map or on the maps of a criterion just produced by copy(). C08.e PARENT-KEY: the test by which mergeIntoCriterion decides that a (requirement, parent) pair is already recorded reads every component of the parent that the readers of the recorded parents (buildGraph, hasRouteToRoot) distinguish; otherwise the record of a replaced parent version stands in for the pinned one and the dependency is dropped as disconnected. Not decided: that the selected versions satisfy their specifiers, pip's prerelease rule, marker evaluation, and everything about which candidates the search pins."
+	r.Explain = "Only the clauses of C08 that are visible in the shape of the code are decided; consistency of the backtracking search over all universes is not. C08.a SNAPSHOT-ISOLATED: a new search state is built from Clone/Copy of the previous one (resolution.pushNewState), versionMap.Clone re-makes both its map and its stack and fills them, and criterion.copy re-makes the two maps that are later updated in place, so backtracking to an earlier state finds it unchanged. C08.b VERSIONMAP: the pin table's map and insertion stack are written only by its own Set/Pop/Clone, and Set/Pop update both on every path, so there is one pinned version per package. C08.c GRAPH-SHAPE (buildGraph): a node is added only for a pin that has a route to the root and only when the package has no node yet, the id is recorded in the package-keyed table in the same step (one node per package, every node reachable), and every recorded requirement of a selected package ends in AddEdge, an error return, or the one documented skip (the parent has no node). C08.d ROOT-FIXED: for a requirement on the root's package provider.matchingVersions returns nothing but the root version. C08.g MEMO-NEGATIVE: a recursive search over the (cyclic) parent relation that uses one map both as its on-the-path marker and as its memo of negative answers (marks the node false before recursing, answers false for any node found false) computes a correct answer only for the node the query started from; the false it leaves on nodes met while an ancestor was still on the path is not final. Such a function (hasRouteToRoot) may keep its negatives only after a query that failed; every caller has to discard them on the success side of the call, or a selected version is later judged disconnected and dropped together with the edges to it. C08.f CRIT-MAP-FROZEN: a criterion stored in a search state is shared with the older states kept for backtracking (criteria.Copy is shallow), so its extras/incompatibilities maps are never updated in place: every map update, and every call whose callee (by its effect summary) writes the map it is given, acts on a fresh map or on the maps of a criterion just produced by copy(). C08.e PARENT-KEY: the test by which mergeIntoCriterion decides that a (requirement, parent) pair is already recorded reads every component of the parent that the readers of the recorded parents (buildGraph, hasRouteToRoot) distinguish; otherwise the record of a replaced parent version stands in for the pinned one and the dependency is dropped as disconnected. Not decided: that the selected versions satisfy their specifiers, pip's prerelease rule, marker evaluation, and everything about which candidates the search pins."
 	r.Assume = []string{"hasRouteToRoot is correct (its termination is decided under C04.4)"}
 
 	// ---- a. SNAPSHOT-ISOLATED
@@ -367,6 +368,7 @@ func checkC08(r *Report) {
 	}
 	parentKeyRule(r, p, "C08.e/PARENT-KEY")
 	critMapFrozenRule(r, p, e, "C08.f/CRIT-MAP-FROZEN")
+	memoNegativeRule(r, p, "C08.g/MEMO-NEGATIVE")
 	sortObls(r)
 }
 
@@ -838,4 +840,141 @@ func writesMapParam(p *Prog, f *ssa.Function, k int, depth int) (bool, string) {
 		}
 	}
 	return false, ""
+}
+
+// memoNegativeRule: see checkC08 (C08.g).
+func memoNegativeRule(r *Report, p *Prog, rule string) {
+	n := 0
+	for _, f := range p.Funcs {
+		if f.Pkg == nil || f.Pkg.Pkg.Path() != modPrefix+"resolve/pypi" || f.Blocks == nil {
+			continue
+		}
+		// a map[K]bool parameter
+		for mi, prm := range f.Params {
+			mt, ok := prm.Type().Underlying().(*types.Map)
+			if !ok {
+				continue
+			}
+			if b, ok := mt.Elem().Underlying().(*types.Basic); !ok || b.Kind() != types.Bool {
+				continue
+			}
+			recursive, marksFalse, answersFalse, deletes := false, false, false, false
+			for _, b := range f.Blocks {
+				for _, in := range b.Instrs {
+					switch x := in.(type) {
+					case *ssa.MapUpdate:
+						if x.Map == ssa.Value(prm) {
+							if c, ok := x.Value.(*ssa.Const); ok && c.Value != nil && c.Value.Kind() == constant.Bool && !constant.BoolVal(c.Value) {
+								marksFalse = true
+							}
+						}
+					case ssa.CallInstruction:
+						if x.Common().StaticCallee() == f {
+							recursive = true
+						}
+						if bi, ok := x.Common().Value.(*ssa.Builtin); ok && bi.Name() == "delete" && len(x.Common().Args) > 0 && x.Common().Args[0] == ssa.Value(prm) {
+							deletes = true
+						}
+					case *ssa.Return:
+						if len(x.Results) == 1 {
+							if c, ok := x.Results[0].(*ssa.Const); ok && c.Value != nil && c.Value.Kind() == constant.Bool && !constant.BoolVal(c.Value) {
+								// guarded by a lookup in the memo?
+								for _, g := range f.Blocks {
+									ifi, ok := g.Instrs[len(g.Instrs)-1].(*ssa.If)
+									if !ok || !g.Dominates(b) || g == b {
+										continue
+									}
+									if condDerives(ifi.Cond, 0, func(v ssa.Value) bool {
+										ex, ok := v.(*ssa.Extract)
+										if !ok {
+											return false
+										}
+										lk, ok := ex.Tuple.(*ssa.Lookup)
+										return ok && lk.X == ssa.Value(prm)
+									}) && len(b.Preds) == 1 && b.Preds[0] == g {
+										answersFalse = true
+									}
+								}
+							}
+						}
+					}
+				}
+			}
+			if !(recursive && marksFalse && answersFalse) || deletes {
+				continue
+			}
+			// f is a search of that kind; look at its outside callers
+			for _, g := range p.Funcs {
+				if g == f || g.Blocks == nil {
+					continue
+				}
+				for _, b := range g.Blocks {
+					for _, in := range b.Instrs {
+						call, ok := in.(*ssa.Call)
+						if !ok || call.Call.StaticCallee() != f || mi >= len(call.Call.Args) {
+							continue
+						}
+						n++
+						key := fmt.Sprintf("%s: query of %s", fnKey(g), fnKey(f))
+						memo := call.Call.Args[mi]
+						// the successor on which the call answered true
+						var succTrue *ssa.BasicBlock
+						if refs := call.Referrers(); refs != nil {
+							for _, rf := range *refs {
+								if ifi, ok := rf.(*ssa.If); ok && ifi.Cond == ssa.Value(call) {
+									succTrue = ifi.Block().Succs[0]
+								}
+								if u, ok := rf.(*ssa.UnOp); ok && u.Op == token.NOT && u.Referrers() != nil {
+									for _, r2 := range *u.Referrers() {
+										if ifi, ok := r2.(*ssa.If); ok {
+											succTrue = ifi.Block().Succs[1]
+										}
+									}
+								}
+							}
+						}
+						cleared := false
+						if succTrue != nil {
+							for _, b2 := range g.Blocks {
+								if !succTrue.Dominates(b2) {
+									continue
+								}
+								for _, in2 := range b2.Instrs {
+									if c2, ok := in2.(ssa.CallInstruction); ok {
+										if bi, ok := c2.Common().Value.(*ssa.Builtin); ok && bi.Name() == "delete" && len(c2.Common().Args) > 0 && sameMapValue(c2.Common().Args[0], memo) {
+											cleared = true
+										}
+									}
+								}
+							}
+						}
+						if cleared {
+							r.ok(rule, key, p.pos(call.Pos()), "the negatives left in the memo are discarded on the success side of the query (they are final only after a query that failed)")
+						} else {
+							r.bad(rule, key, p.pos(call.Pos()), fnKey(f)+" marks a node false before it recurses and answers false for any node it finds false, so a node met while one of its ancestors was still on the path is left false although it may be connected through that ancestor; the caller keeps those answers for its next queries: a selected version reached first through such a cycle is judged disconnected and dropped from the graph together with the edges to it")
+						}
+					}
+				}
+			}
+		}
+	}
+	r.floor(rule, "outside queries of a search that memoises negatives in its on-path map", n, 1)
+}
+
+// sameMapValue: both values are the same SSA value, or loads of / free variables bound to the same cell.
+func sameMapValue(a, b ssa.Value) bool {
+	if a == b {
+		return true
+	}
+	root := func(v ssa.Value) ssa.Value {
+		for d := 0; d < 4; d++ {
+			if u, ok := v.(*ssa.UnOp); ok && u.Op == token.MUL {
+				v = u.X
+				continue
+			}
+			break
+		}
+		return v
+	}
+	return root(a) == root(b)
 }
